@@ -85,6 +85,14 @@ Proof.
 Qed.
 Print Assumptions C18_conf_3x1_evict.
 
+(* U21d = 2 threads x 1 operation on two files in a subdirectory that does not exist at the start (36 configurations):
+   isdir / makedirs of the write task are steps of their own. *)
+Theorem C18_conf_2x1_newdir : forall cf, In cf U21d -> C18_full_statement gen_flags cf.
+Proof.
+  exact (fun cf H => proj2 (conf_2x1_newdir (eq_refl : shape_ok = true) cf H) (or_introl (eq_refl : fl_busy_guard gen_flags = true))).
+Qed.
+Print Assumptions C18_conf_2x1_newdir.
+
 (* Before the repair (old_flags = the same code without the busy guard) the full statement was false on the racy
    class. K1 = update_file unloads the entry of a pending load:
    {get(0) || update(0)}, file on disk, not cached.  Witness 1: the get returns b"" (torn read), the history
@@ -124,7 +132,7 @@ Proof. split; reflexivity. Qed.
 (* Non-vacuity: the universes have the stated sizes, contain the witness configurations, contain
    non-racy configurations, and a concrete concurrent history is accepted / a torn one rejected. *)
 Example C18_universe_sizes :
-  length U21 = 144%nat /\ length U22 = 81%nat /\ length U31 = 27%nat /\ length U2112 = 64%nat /\ length U31e = 8%nat /\ forallb (fun cf => negb (racy cf)) U31e = true /\
+  length U21 = 144%nat /\ length U22 = 81%nat /\ length U31 = 27%nat /\ length U2112 = 64%nat /\ length U31e = 8%nat /\ length U21d = 36%nat /\ forallb (fun cf => negb (racy cf)) U31e = true /\
   length (filter (fun cf => negb (racy cf)) U2112) = 36%nat /\
   nth_error U21 2 = Some cfg_get_upd /\ nth_error U21 4 = Some cfg_get_unl /\ nth_error U21 16 = Some cfg_upd_unl /\
   length (filter (fun cf => negb (racy cf)) U21) = 96%nat /\
